@@ -159,7 +159,15 @@ class Renderer:
     @contextlib.contextmanager
     def _track_size(self):
         start = self.output.tell()
-        yield start
+        try:
+            yield start
+        except BaseException:
+            # Whatever went wrong while the item was being written (a relative
+            # name without an origin, an RDATA longer than 65535 octets, ...),
+            # do not leave a partial record, or compression entries pointing
+            # into it, behind.
+            self._rollback(start)
+            raise
         if self.output.tell() > self.max_size:
             self._rollback(start)
             raise dns.exception.TooBig
